@@ -116,7 +116,10 @@ class C12Access(Machine):
         sizes = [b - a for a, b in zip([0] + cuts, cuts + [n])]
         out = []
         for i, s in enumerate(sizes):
-            out.append({"n": s, "mode": (rng.pick(["w", "x"]) if i == 0 else rng.pick(["a", "r+"])),
+            out.append({"n": s, "mode": (rng.pick(["w", "x", "a"]) if i == 0 else rng.pick(["a", "r+"])),
+                        # sessions with the same slot number re-open one and the same writer object
+                        # (other writers may have appended in between); None = a fresh writer
+                        "reuse": rng.pick([None, None, 0, 0, 1]),
                         "jump": rng.pick([60.0, 3600.0, 86400.0 * 40, -7200.0, -86400.0 * 400]),
                         # positions (within the session) before which an add is rejected: the
                         # rejected event's rows stay behind as a gap between accepted events
@@ -173,18 +176,26 @@ class C12Access(Machine):
         specs = self.cfg["events"]
         pos = 0
         name = self._fname(label)
+        slots = {}
         for si, sess in enumerate(sessions):
             before = self.clock.t
             self.clock.advance(sess["jump"])
             if self.clock.t < before:
                 self.count("probe.clock_backwards")
             mode = sess["mode"]
-            if si == 0 and mode == "x" and self.disk.exists(name):
+            if si == 0 and mode in ("x", "a") and self.disk.exists(name):
                 mode = "w"
-            w = P.io.HDF5Writer(name, mode=mode, write_particles=True,
-                                write_triggers=o["triggers"], write_antenna_triggers=o["antenna_triggers"],
-                                write_rays=o["rays"], write_noise=o["noise"], write_waveforms=o["waveforms"],
-                                require_trigger=self.cfg["require_trigger"])
+            slot = sess.get("reuse") if mode in ("a", "r+") else None
+            if slot is not None and slot in slots:
+                w = slots[slot]
+                self.count("probe.writer_object_reopened")
+            else:
+                w = P.io.HDF5Writer(name, mode=mode, write_particles=True,
+                                    write_triggers=o["triggers"], write_antenna_triggers=o["antenna_triggers"],
+                                    write_rays=o["rays"], write_noise=o["noise"], write_waveforms=o["waveforms"],
+                                    require_trigger=self.cfg["require_trigger"])
+                if slot is not None:
+                    slots[slot] = w
             self.sut(w.open, where="writer.open(%s)" % mode)
             self.sut(w.set_detector, self.world.detector, where="set_detector")
             for local_i, spec in enumerate(specs[pos:pos + sess["n"]] + [None]):
@@ -205,7 +216,7 @@ class C12Access(Machine):
                          events_thrown=spec["thrown"], where="add")
             pos += sess["n"]
             self.sut(w.close, where="writer.close")
-            # restart: the writer object is dropped, only the disk survives
+            # restart: only the disk survives (and writer objects kept for a later session)
             del w
         self.files[label] = len(specs)
 
